@@ -191,7 +191,7 @@ def run_replay_file(path):
 
 def gen_test(prog, fnkey, inputs, repo):
     types = prog.types
-    fn = prog.funcs[fnkey]
+    fn = prog.funcs[fnkey.split('#')[0]]
     con = prog.cs.funcs[fnkey]
     pkg, rel = fnkey.split('::', 1)
     if '$' in rel:
